@@ -105,11 +105,25 @@ class Model:
             self.back = back
         return True
 
+    def eff_start(self, limit):
+        """first unsieved number when _extend(limit) enters its segment loop (after the recursive sqrt extension)"""
+        start = self.back + 1
+        if limit > start:
+            sq = math.isqrt(limit)
+            if sq >= start:
+                return max(self.back, ref().prev(sq)) + 1
+        return start
+
     def safe_limit(self, limit):
         """largest limit <= the requested one that does not cross a whole segment"""
         if not self.kf:
             return limit
-        return min(limit, self.back + 1 + 2 * self.seg)
+        for _ in range(8):
+            cap = self.eff_start(limit) + 2 * self.seg
+            if limit <= cap:
+                break
+            limit = cap
+        return limit
 
     def do_clear(self):
         self.back = 29
@@ -121,7 +135,10 @@ def resolve_limit(d, m):
     if k == "abs":
         v = d["v"]
     elif k == "seg":
+        # the end of the mult-th segment of the extension this very call performs (+- d)
         v = m.back + 1 + 2 * m.seg * d.get("mult", 1) + d["d"]
+        for _ in range(3):
+            v = m.eff_start(min(MAXLIM, max(v, 0))) + 2 * m.seg * d.get("mult", 1) + d["d"]
     elif k == "sq":
         p = ref().primes[d["i"]]
         v = p * p + d["d"]
@@ -214,7 +231,7 @@ class C33(Check):
     assumptions = ["reference = plain Python sieve of Eratosthenes up to 4.2e6",
                    "after an iterator returned a value > its limit it is not used again (that is how every in-tree caller uses it)",
                    "a small Python model of the cache (end of cache, segment size, clear flag) only chooses limits; it is not part of the oracle"]
-    tiers = {"quick": {"examples": 1500}, "thorough": {"examples": 50000}}
+    tiers = {"quick": {"examples": 1500}, "thorough": {"examples": 30000}}
     min_nontrivial = 20
 
     def setup_worker(self, tier):
